@@ -145,6 +145,34 @@ class _FakeThread(object):
         self.target(*self.args, **self.kwargs)
 
 
+_FIXTURES = {}   # (kind, text) -> [(model name, record)]
+
+
+def _fixture(kind, text, project_id, is_admin):
+    """Definitions are created once by the real services (real parser and
+    validation, ~1 s) in a scratch database; every path then starts from a
+    copy of the resulting rows."""
+    key = (kind, text, project_id)
+    if key in _FIXTURES:
+        return _FIXTURES[key]
+    from mistral.db.v2.sqlalchemy import models
+    from mistral.services import workflows as wf_service
+    from mistral.services import workbooks as wb_service
+    tmp = minidb.MiniDB(id_prefix='def%d' % len(_FIXTURES))
+    with minidb.installed(tmp, per_thread_tx_lock=False), \
+            env.auth_ctx(project_id, is_admin):
+        if kind == 'wb':
+            wb_service.create_workbook_v2(text)
+        else:
+            wf_service.create_workflows(text)
+    out = []
+    for name in ('Workbook', 'WorkflowDefinition', 'ActionDefinition'):
+        for rec in tmp.rows(getattr(models, name)):
+            out.append((name, dict(rec)))
+    _FIXTURES[key] = out
+    return out
+
+
 class World(object):
     def __init__(self, definitions=(), workbooks=(), clock=None,
                  defer_post_tx=False, db=None, expr_stub=None,
@@ -177,11 +205,14 @@ class World(object):
         from mistral.rpc import clients as rpc
         from mistral.executors import base as exe
         from mistral.lang import parser as spec_parser
-        from mistral.services import workflows as wf_service
-        from mistral.services import workbooks as wb_service
-        from mistral.services import action_heartbeat_sender
         from mistral.engine import actions as engine_actions
+        from mistral.db.v2.sqlalchemy import models
         import mistral_lib.utils as mlu
+        fixtures = []
+        for text in self.workbooks:
+            fixtures += _fixture('wb', text, self.project_id, self.is_admin)
+        for text in self.definitions:
+            fixtures += _fixture('wf', text, self.project_id, self.is_admin)
         st = contextlib.ExitStack()
         self._stack = st
         st.enter_context(minidb.installed(self.db, per_thread_tx_lock=False))
@@ -229,10 +260,8 @@ class World(object):
             st.enter_context(env.patched(expressions, 'evaluate',
                                          self.expr_stub))
         self.engine = default_engine.DefaultEngine()
-        for text in self.workbooks:
-            wb_service.create_workbook_v2(text)
-        for text in self.definitions:
-            wf_service.create_workflows(text)
+        for name, rec in fixtures:
+            self.db.put(getattr(models, name), **minidb._copy_val(rec))
         return self
 
     def __exit__(self, *a):
